@@ -596,17 +596,16 @@ def shard(ctx: runner.Ctx) -> None:
                     "targets": [b.split(":")[0]], "pair": list(pl.pair), "kind": pl.kind}
             ctx.fail(b, case, m)
 
-    # The scope kind and the control flag follow a counter instead of being drawn: the first examples of a
-    # Hypothesis run are biased towards the first alternatives, and a shard has only ~20 examples.
-    kinds = c21_gen.SCOPE_KINDS
-    counter = itertools.count(ctx.shard * 5)
-
-    @st.composite
-    def stratified(draw: Any) -> c21_gen.Planted:
-        k = next(counter)
-        return draw(c21_gen.planted_specs(kind=kinds[k % len(kinds)], control=(k // len(kinds) + k) % 10 < 3))
-
-    runner.hyp_run(stratified(), one, n, ctx.seed)
+    # Every random choice (scope kind, control flag) stays inside Hypothesis. The first examples of a run are
+    # biased towards the first alternative, so the list of kinds is rotated by the shard number: over the 16
+    # shards every kind is "first" at least once.
+    kinds = list(c21_gen.SCOPE_KINDS)
+    rot = ctx.shard % len(kinds)
+    kinds = kinds[rot:] + kinds[:rot]
+    strategy = st.tuples(st.sampled_from(kinds), st.integers(0, 9)).flatmap(
+        lambda kc: c21_gen.planted_specs(kind=kc[0], control=kc[1] >= 7)
+    )
+    runner.hyp_run(strategy, one, n, ctx.seed)
 
 
 def replay(case: Any) -> List[Tuple[str, str]]:
